@@ -8,8 +8,7 @@ CONSTANTS MaxEpoch,    \* the main chain is explored up to this epoch
           MCFiles,     \* files as a set
           SameContent  \* TRUE: all files have identical bytes (same content hash)
 
-MCContent == [f \in MCFiles |-> IF SameContent THEN 1 ELSE CHOOSE n \in 1..Cardinality(MCFiles) :
-                 n = Cardinality({g \in MCFiles : g <= f})]
+MCContent == [f \in MCFiles |-> IF SameContent THEN "same bytes" ELSE f]
 
 MCInit == Init
 
